@@ -62,7 +62,7 @@ func init() {
 		}
 		props[id] = c
 	}
-	def("C01", propCfg{QuickShards: 4, ThoroughShard: 12, Level: "fault_enumeration", Fuzz: []fuzzCfg{{"FuzzDecode", 240}}})
+	def("C01", propCfg{QuickShards: 6, QuickTimeout: 10 * time.Minute, ThorTimeout: 40 * time.Minute, ThoroughShard: 12, Level: "fault_enumeration", Fuzz: []fuzzCfg{{"FuzzDecode", 240}}})
 	def("C02", propCfg{QuickShards: 2, ThoroughShard: 12, Fuzz: []fuzzCfg{{"FuzzTerminate", 180}}})
 	def("C03", propCfg{QuickShards: 2, ThoroughShard: 12})
 	def("C04", propCfg{QuickShards: 2, ThoroughShard: 12})
